@@ -195,6 +195,28 @@ func termdbMain(args []string) error {
 	for i := 0; i < *npairs; i++ {
 		doPair(cl[rng.Intn(len(cl))], cl[rng.Intn(len(cl))], envs[rng.Intn(len(envs))])
 	}
+	// a name that is unknown when first asked for and registered afterwards (the order in which an application's own
+	// fallback works): what a lookup returns does not depend on the earlier, failed one
+	restore()
+	os.Unsetenv("COLORTERM")
+	os.Unsetenv("TCELL_TRUECOLOR")
+	for _, late := range []string{"zz-late", "zzlate2"} {
+		_, e1 := terminfo.LookupTerminfo(late)
+		_, e2 := terminfo.LookupTerminfo(late + "-truecolor")
+		_, e3 := terminfo.LookupTerminfo(late + "-256color")
+		if base, err := terminfo.LookupTerminfo("xterm"); err == nil {
+			cp := *base
+			cp.Name = late
+			cp.Aliases = nil
+			terminfo.AddTerminfo(&cp)
+		}
+		a, f1 := terminfo.LookupTerminfo(late)
+		_, f2 := terminfo.LookupTerminfo(late + "-truecolor")
+		_, f3 := terminfo.LookupTerminfo(late + "-256color")
+		tw.Emit(trace.Ev{"ev": "Register", "name": trace.Str(late),
+			"unknown_before": errors.Is(e1, terminfo.ErrTermNotFound) && errors.Is(e2, terminfo.ErrTermNotFound) && errors.Is(e3, terminfo.ErrTermNotFound),
+			"found_after": f1 == nil && a != nil && a.Name == late, "truecolor_after": f2 == nil, "c256_after": f3 == nil})
+	}
 	restore()
 	if err := tw.Close(); err != nil {
 		return err
